@@ -102,14 +102,70 @@ Definition laws_always (q : qtable) (t : transcript) : bool :=
 Definition laws_protocol (c : case) (t : transcript) : bool :=
   negb (t_panic t) &&
   forallb (laws_wf (c_probes c)) (t_regs t) &&
-  forallb (fun ob => if fst ob then no_empty_values (o_range (snd ob)) else true) (combine (from_builder (c_ops c)) (t_regs t)).
+  forallb (fun ob : bool * lobs => if fst ob then no_empty_values (o_range (snd ob)) else true) (combine (from_builder (c_ops c)) (t_regs t)).
 
-Definition cross_eq (a b : transcript) : bool := t_eqb_with lobs_eqb_nobytes a b.
+(* Builder.Range promises no order (stringlabels/dedupelabels sort b.add in place inside
+   Builder.Labels, slicelabels does not: C39_builder_range_order_differs); across builds its
+   output is compared as a set, i.e. sorted by name (names are unique in a Builder) *)
+Definition canon_event (e : event) : event :=
+  match e with ERange l => ERange (sort_labels l) | _ => e end.
+Definition canon_t (t : transcript) : transcript :=
+  mkT (t_panic t) (map canon_event (t_events t)) (t_regs t) (t_cmp t) (t_eq t).
+Definition cross_eq (a b : transcript) : bool := t_eqb_with lobs_eqb_nobytes (canon_t a) (canon_t b).
+
+(* ---- the specification machine: label sets are finite maps name -> value kept as strictly
+   name-sorted association lists; a Builder is a map plus the set of names with a pending addition
+   (Keep spares those); the ScratchBuilder (inside its protocol) is the list of additions or an
+   assigned set.  Nothing here mentions encodings, del/add slices, merges or sorts of the
+   implementations. *)
+Fixpoint m_set (n v : str) (m : list label) : list label :=
+  match m with
+  | [] => [(n, v)]
+  | (k, w) :: t => match str_cmp n k with
+                   | Lt => (n, v) :: m
+                   | Eq => (n, v) :: t
+                   | Gt => (k, w) :: m_set n v t
+                   end
+  end.
+Definition m_del (n : str) (m : list label) : list label := filter (fun x => negb (str_eqb (fst x) n)) m.
+Definition m_of (ls : list label) : list label := fold_left (fun m x => m_set (fst x) (snd x) m) ls [].
+Record spec_st := mkSp {
+  sp_regs : list (list label); sp_view : list label; sp_added : list str;
+  sp_adds : list label; sp_asg : option (list label); sp_ev : list event }.
+Definition set_nth {A} (l : list A) (r : nat) (x : A) : list A := firstn r l ++ x :: skipn (S r) l.
+Definition sp_del1 (s : spec_st) (n : str) : spec_st :=
+  mkSp (sp_regs s) (m_del n (sp_view s)) (filter (fun a => negb (str_eqb a n)) (sp_added s)) (sp_adds s) (sp_asg s) (sp_ev s).
+Definition spec_step (s : spec_st) (o : op) : spec_st :=
+  let '(mkSp regs view added adds asg ev) := s in
+  match o with
+  | OBReset r => mkSp regs (filter (fun x => match snd x with [] => false | _ => true end) (nth r regs [])) [] adds asg ev
+  | OBSet n [] => sp_del1 s n
+  | OBSet n v => mkSp regs (m_set n v view) (n :: added) adds asg ev
+  | OBDel ns => fold_left sp_del1 ns s
+  | OBKeep ns => mkSp regs (filter (fun x => mem (fst x) added || mem (fst x) ns) view) added adds asg ev
+  | OBLabels r => mkSp (set_nth regs r view) view added adds asg ev
+  | OBGet n => mkSp regs view added adds asg (EGet (match lookup view n with Some v => v | None => [] end) :: ev)
+  | OBRange => mkSp regs view added adds asg (ERange view :: ev)
+  | OSReset => mkSp regs view added [] None ev
+  | OSAdd n v => mkSp regs view added (adds ++ [(n, v)]) asg ev
+  | OSSort => s
+  | OSAssign r => mkSp regs view added adds (Some (nth r regs [])) ev
+  | OSLabels r => mkSp (set_nth regs r (match asg with Some l => l | None => m_of adds end)) view added adds asg ev
+  | ONew r ls => mkSp (set_nth regs r (m_of ls)) view added adds asg ev
+  | ORebuild => s
+  end.
+Definition spec_run (ops : list op) : spec_st := fold_left spec_step ops (mkSp (repeat [] K) [] [] [] None []).
+(* a build's transcript shows exactly the specified maps and Builder observations *)
+Definition matches_spec (c : case) (t : transcript) : bool :=
+  let sp := spec_run (c_ops c) in
+  list_eqb labels_eqb (map o_range (t_regs t)) (sp_regs sp) &&
+  list_eqb event_eqb (map canon_event (t_events t)) (rev (sp_ev sp)).
 
 Definition holds (c : case) : bool :=
   laws_always (c_q c) (c_tS c) && laws_always (c_q c) (c_tL c) && laws_always (c_q c) (c_tD c) &&
   (if protocol_ok (c_ops c) then
      laws_protocol c (c_tS c) && laws_protocol c (c_tL c) && laws_protocol c (c_tD c) &&
+     matches_spec c (c_tS c) && matches_spec c (c_tL c) && matches_spec c (c_tD c) &&
      cross_eq (c_tS c) (c_tL c) && cross_eq (c_tS c) (c_tD c)
    else true).
 
